@@ -135,11 +135,11 @@ var propertyConfigs = map[string]*propertyConfig{
 	"C19": {
 		ID: "C19", Packages: []string{"./..."}, Level: "proof",
 		Explain: "Acceptance-soundness bridge: rlwe.CheckModuli / checkSizeParams / checkModuliLogSize are under contract; their postconditions say that an accepted moduli chain satisfies the precondition under which the ring kernels and the lazy NTT schedule were verified " +
-			"(every Q modulus < 2^61 and prime, every P modulus < 2^62 and prime, 4 <= logN <= 20, requested sizes in ]0,60] / ]0,61]).  NewParameters calls CheckModuli and returns its error (by inspection; the constructor itself is outside the subset).  " +
+			"(every Q modulus < 2^61 and prime, every P modulus prime and - this part FAILS, known finding KF4 - below 2^61, 4 <= logN <= 20, requested sizes in ]0,60] / ]0,61]).  NewParameters calls CheckModuli and returns its error (by inspection; the constructor itself is outside the subset).  " +
 			"bgv.NewParameters (abstract contract, go/ssa): a plaintext modulus accepted without error is non-zero and is not one of the moduli of Q (membership through assumed contracts on Parameters.Q and slices.Contains).",
 		Assumptions: []string{
 			"primality oracle ring.IsPrime = math/big.ProbablyPrime(0), exact below 2^64 (assumed contract)",
-			"P moduli in [2^61, 2^62) are accepted on purpose (LogP = 61 requests generate primes just above 2^61 and shipped bootstrapping sets use them): for those the lazy NTT bound 8p < 2^64 is NOT implied; no failing input is known (DESIGN.md, findings F1b)",
+			"P moduli in [2^61, 2^62) are accepted (LogP = 61 requests generate primes just above 2^61 and shipped bootstrapping sets use them): for those the kernel precondition q < 2^61 is NOT implied; known finding KF4 with a failing input (62-bit P: the NTT of ringP is wrong), DESIGN.md 13.8",
 			"NOT decided: prime generation from bit sizes (float log2 window), the remaining plaintext-modulus checks of bgv.NewParameters (t <= Q[0], cyclotomic order of t), the 128-bit security table, JSON round trip",
 		},
 		Trusted: stdTrusted,
